@@ -107,12 +107,13 @@ def keys(ctx: Ctx) -> List[Ob]:
     # value of $format_version / generator
     hdr = None
     for n in iter_own(sv.node):
-        if isinstance(n, ast.Dict) and any(isinstance(k, ast.Constant) and k.value == "$generator" for k in n.keys):
+        if isinstance(n, ast.Dict) and any(isinstance(k, ast.Constant) and isinstance(k.value, str) and k.value.startswith("$") for k in n.keys):
             hdr = n
     if hdr is None:
         raise AnalysisError("Tree.save: header literal not found")
     hv = {k.value: v for k, v in zip(hdr.keys, hdr.values) if isinstance(k, ast.Constant)}
-    ok = norm(hv.get("$format_version")) == "FILE_FORMAT_VERSION" and "nutree/" in norm(hv.get("$generator")) and "get_version()" in norm(hv.get("$generator"))
+    ok = "$format_version" in hv and "$generator" in hv and norm(hv.get("$format_version")) == "FILE_FORMAT_VERSION" \
+        and "nutree/" in norm(hv.get("$generator")) and "get_version()" in norm(hv.get("$generator"))
     obs.append(ctx.ob("KEYS", ["C12"], sv, "header values: generator 'nutree/<version>', format version constant", hdr, ok,
                       "" if ok else "load() recognises files by the 'nutree/' generator tag"))
     # --- dict form
@@ -287,7 +288,8 @@ def fmt(ctx: Ctx) -> List[Ob]:
     sv = m.func("Tree.save")
     hd = None
     for n in iter_own(sv.node):
-        if isinstance(n, (ast.Assign, ast.AnnAssign)) and isinstance(n.value, ast.Dict) and any(isinstance(k, ast.Constant) and k.value == "$generator" for k in n.value.keys):
+        if isinstance(n, (ast.Assign, ast.AnnAssign)) and isinstance(n.value, ast.Dict) and any(
+                isinstance(k, ast.Constant) and isinstance(k.value, str) and k.value.startswith("$") for k in n.value.keys):
             hd = norm(n.target if isinstance(n, ast.AnnAssign) else n.targets[0])
     if hd is None:
         raise AnalysisError("Tree.save: header dict not found")
